@@ -126,6 +126,7 @@ class Interp:
         self.hooks = hooks
         self.notes = []
         self.inline_recursive = inline_recursive
+        self.fold_pad = False
 
     # ------------------------------------------------------------------ types
     def ty(self, frame, idx):
@@ -1153,6 +1154,12 @@ class Interp:
             return [(s, ("trybranch", args[0]))]
         if sh == "FromResidual::from_residual":
             return [(s, args[0])]
+        # ---- the padding function is a primitive of the analysis (its arithmetic is not decided)
+        if krate == "epserde" and name == "pad_align_to" and len(args) == 2 and dj["kind"] == "Fn":
+            a, b = self.load_ref(s, args[0]), self.load_ref(s, args[1])
+            if is_c(a) and is_c(b) and b[1] > 0 and self.fold_pad:
+                return [(s, C((-a[1]) % b[1]))]
+            return [(s, ("pad", a, b))]
         # ---- layout queries
         if krate == "core" and name == "size_of" and targs:
             return [(s, self.size_of(targs[0]))]
@@ -1182,6 +1189,19 @@ class Interp:
                 return [(s, a)]
             x, y = sorted([a, b], key=repr)
             return [(s, ("call", name, (x, y), None))]
+        if krate == "core" and name == "wrapping_neg" and len(args) == 1:
+            a = self.load_ref(s, args[0])
+            if is_c(a):
+                return [(s, C((-a[1]) & 0xFFFFFFFFFFFFFFFF))]
+            return [(s, ("call", "wrapping_neg", (a,), None))]
+        if krate == "core" and name in ("saturating_sub", "wrapping_sub", "wrapping_add", "saturating_add", "saturating_mul") and len(args) == 2:
+            a, b = self.load_ref(s, args[0]), self.load_ref(s, args[1])
+            if is_c(a) and is_c(b):
+                M = 0xFFFFFFFFFFFFFFFF
+                r = {"saturating_sub": max(0, a[1] - b[1]), "wrapping_sub": (a[1] - b[1]) & M, "wrapping_add": (a[1] + b[1]) & M,
+                     "saturating_add": min(M, a[1] + b[1]), "saturating_mul": min(M, a[1] * b[1])}[name]
+                return [(s, C(r))]
+            return [(s, ("call", name, (a, b), None))]
         # ---- identity-like views
         if (krate, name) in IDENTITY_FNS and len(args) >= 1:
             return [(s, args[0])]
@@ -1439,6 +1459,10 @@ class Interp:
         for i, p in enumerate(ps):
             if params is not None and i < len(params) and params[i] is not None:
                 v = params[i]
+                if isinstance(v, tuple) and v and v[0] == "byref":
+                    # by-reference parameter modelled as a reference to a synthetic local
+                    envd["$p%d" % i] = v[1]
+                    v = ("mref", fr.uid, "$p%d" % i, ())
             else:
                 nm = p["pat"].get("name") if "pat" in p and p["pat"]["k"] == "Binding" else "arg%d" % i
                 v = ("self",) if p.get("self") else ("param", nm)
